@@ -842,6 +842,32 @@ def check(ctx):
                 else:
                     r3.bad(V(r3.id, f.id, "unwrap_or-not-true", "an Err of needs_regeneration is mapped to %s" % (k.get("bool") if k else "a non-constant"), s[1].file, s[1].line))
                 handled = True
+            if s[0] == "call" and short_path(s[1].path) == "Result::map_or" and len(s[1].args) > 1:
+                # `.map_or(true, |stale| stale)`: the first argument is the answer for Err
+                k = op_const(s[1].args[1])
+                if k is not None and k.get("bool") is True:
+                    r3.ok("%s: needs_regeneration(..).map_or(true, ..)" % short_path(f.id))
+                else:
+                    r3.bad(V(r3.id, f.id, "unwrap_or-not-true", "an Err of needs_regeneration is mapped to %s" % (k.get("bool") if k else "a non-constant"), s[1].file, s[1].line))
+                handled = True
+            if s[0] == "call" and short_path(s[1].path) in ("Result::unwrap_or_else", "Result::map_or_else") and len(s[1].args) > 1:
+                # the Err answer computed by a closure: it must be the constant true
+                co_ = f.origin(s[1].args[1])
+                cid_ = co_[1].get("closure") if co_[0] == "aggr" and isinstance(co_[1], dict) else None
+                g_ = P.fns.get(cid_)
+                vals_ = set()
+                if g_ is not None:
+                    for b_ in g_.reach_blocks:
+                        for st_ in g_.blocks[b_]["stmts"]:
+                            if st_.get("lhs") and st_["lhs"]["l"] == 0 and not st_["lhs"].get("p"):
+                                k_ = op_const((st_.get("rv") or {}).get("op")) if (st_.get("rv") or {}).get("k") == "use" else None
+                                vals_.add(k_.get("bool") if k_ and "bool" in k_ else "?")
+                if vals_ == {True}:
+                    r3.ok("%s: an Err of needs_regeneration is answered true by the fallback closure" % short_path(f.id))
+                    handled = True
+                elif vals_ and "?" not in vals_:
+                    r3.bad(V(r3.id, f.id, "unwrap_or-not-true", "an Err of needs_regeneration is mapped to %s" % sorted(map(str, vals_)), s[1].file, s[1].line))
+                    handled = True
             if s[0] == "call" and short_path(s[1].path) in ("Result::unwrap_or_default", "Result::is_ok_and", "Result::ok"):
                 r3.bad(V(r3.id, f.id, "err-mapped-to-false:%s" % short_path(s[1].path), "an Err of needs_regeneration is treated as 'no regeneration needed'", s[1].file, s[1].line))
                 handled = True
